@@ -139,6 +139,7 @@ where
             .ok_or(AuthError::InvalidToken)?;
 
         let mut session = user.session.unwrap();
+
         session.refresh(self.config.default_refresh_lifetime);
 
         user.session = Some(session);
@@ -171,4 +172,10 @@ where
             .map(|user| user.uid)
             .ok_or(AuthError::InvalidToken)
     }
+}
+
+#[cfg(kani)]
+#[allow(unused_imports, dead_code)]
+mod verif_harness {
+    include!(concat!(env!("HUMPHREY_VERIF"), "/kani/in_auth.rs"));
 }
